@@ -1,17 +1,28 @@
 #!/bin/sh
-# run_mutant.sh <seeded-name> <check-id>...   : apply a seeded change to /repo, run the quick checks, undo it.
+# run_mutant.sh <seeded-name> <check-id>...
+# Runs quick checks against a scratch worktree of /repo HEAD with the seeded change applied
+# (equivalent to `git -C /repo apply` + ./check + `git -C /repo checkout -- .`, but leaves /repo alone
+# so that it can run while other work goes on).  Prints one line per check.
 name="$1"; shift
-cd /verif
-git -C /repo diff --quiet || { echo "/repo has local changes"; exit 2; }
-git -C /repo apply "seeded/$name/patch.diff" || { echo "patch does not apply"; exit 2; }
-trap 'git -C /repo checkout -- . ; git -C /repo clean -fdq' EXIT
+export GOFLAGS=-mod=mod GOPROXY=off GOSUMDB=off GOTOOLCHAIN=local
+wt=/tmp/mw/$name; hd=/tmp/mh/$name
+mkdir -p /tmp/mw /tmp/mh
+git -C /repo worktree remove --force $wt 2>/dev/null
+rm -rf $hd
+git -C /repo worktree add -q --detach $wt HEAD || exit 2
+trap 'git -C /repo worktree remove --force '$wt' 2>/dev/null; rm -rf '$hd EXIT
+(cd $wt && git apply /verif/seeded/$name/patch.diff) || { echo "MUTANT $name: patch does not apply"; exit 2; }
+mkdir -p $hd/root/bin $hd/root/evidence
+cp -r /verif/harness $hd/harness
+cp /verif/known_findings.jsonl $hd/root/ 2>/dev/null
+sed -i "s#=> /repo#=> $wt#" $hd/harness/go.mod
+cp $wt/go.sum $hd/harness/go.sum
+(cd $hd/harness && go build -tags verif -o $hd/root/bin/verif .) || { echo "MUTANT $name: harness build failed"; exit 2; }
 for id in "$@"; do
   start=$(date +%s)
-  out=$(./check "$id" quick 2>&1); rc=$?
+  out=$(VERIF_ROOT=$hd/root VERIF_SPEC_DIR=/verif/spec VERIF_REPO=$wt $hd/root/bin/verif check "$id" --tier quick 2>&1); rc=$?
   nv=$(printf '%s\n' "$out" | grep -c '^VIOLATION')
   echo "MUTANT $name check=$id exit=$rc violations=$nv secs=$(( $(date +%s) - start ))"
-  printf '%s\n' "$out" | grep -A1 '^VIOLATION' | head -4
+  printf '%s\n' "$out" | grep -A1 '^VIOLATION' | head -2 | cut -c1-400
   [ $rc -eq 2 ] && printf '%s\n' "$out" | tail -5
 done
-# evidence files were rewritten against the mutated tree; restore the committed ones
-git -C /verif checkout -- evidence 2>/dev/null || true
